@@ -8,7 +8,7 @@ COMMON_ASSUMPTIONS = [
     "SciPy and NumPy are deterministic for identical inputs in identical process state (checked by the run-twice digest self-test)",
     "the four interception points (scipy_solver.minimize, scipy.optimize.linprog looked up at call time, the `time` attribute of both solver modules) exist; their absence is reported as HARNESS-ERROR, never as a pass",
     "a forked child of a process that imported optyx but never built an expression is a 'fresh process' for optyx's purposes",
-    "models are small (<= 4 variables per container, <= 30-term chains); nothing is claimed about scale",
+    "models are small (<= 13 variables per container, chains of up to 405 terms); nothing is claimed about scale",
 ]
 
 
@@ -121,19 +121,20 @@ PROPS = {
         "exhaustive_note": (
             "sweep part: for each enumerated scenario, EVERY seam interruption point {solver entry, each of the K callback events of the "
             "fault-free run, solver exit} x {ValueError, FloatingPointError, MemoryError, KeyboardInterrupt} is injected (exhaustive at "
-            "callback granularity for those scenarios); the seeded part samples further scenarios, double faults, faults inside "
+            "callback granularity for those scenarios), plus the first 6 (quick) / 10 (thorough) optyx line events inside the first 2 / 4 callbacks; the seeded part samples further scenarios, double faults, faults inside "
             "increased_recursion_limit, scripted callback orders and the SLSQP->trust-constr retry entry"
         ),
         "rule": (
-            "a seeded problem (LP/QP/NLP, cold or warm caches, hess_fn present or not), one solve faulted at the solver seam (exception raised at "
-            "solver entry, instead of the k-th objective/gradient/constraint/Jacobian/Hessian callback, or after SciPy returned), optionally inside "
+            "a seeded problem (LP/QP/NLP, also 405-term deep trees; cold or warm caches, hess_fn present or not), one solve faulted at the solver seam "
+            "(exception raised at solver entry, instead of the k-th objective/gradient/constraint/Jacobian/Hessian callback, PART-WAY INSIDE the k-th "
+            "callback at the j-th line executed in optyx's compiled closures (sys.settrace during that one callback), or after SciPy returned), optionally inside "
             "increased_recursion_limit, optionally twice, then fault-free solves with the same and with a Hessian method.  Oracles: (i) if the "
             "injected exception left the solver, the call returned FAILED or propagated that exception; (ii) warnings.showwarning is the object "
             "installed before the call and sys.getrecursionlimit() is unchanged after every operation; (iii) every later solve/read equals the same "
             "call on the same problem built alone in a pristine process.  Distinct/non-trivial: (site, callback kind, exception class, solver "
             "method, outcome, inside-with, number of solver entries)."
         ),
-        "assumptions": COMMON_ASSUMPTIONS + ["fault model = the property's: the solver or a callback raises; asynchronous exceptions inside optyx's own frames are not injected"],
+        "assumptions": COMMON_ASSUMPTIONS + ["fault model = the property's: the solver or a callback raises (also part-way through the callback's own evaluation); exceptions landing in optyx's solver-module frames outside a callback (e.g. inside its own finally block) are not injected"],
     },
     "C06": {
         "gen": _c06_gen,
